@@ -56,10 +56,15 @@ OPS = {
     "T8": {"type": {"oneOf": [{"type": "string", "enum": ["low", "high"]}, {"type": "integer"}]}, "hint": "Level"},   # a hinted type that takes the name a later titled root asks for
 }
 ALPHABET = list(OPS)
+# a recursive definition and a non-cyclic one that refers to it through the same kind of (non-required) member: the cycle breaker rewrites the
+# shared Option<Node> in place; whether Other sees the rewritten type must not depend on the batching. (Only in the ordering sub-alphabet.)
+D7 = {"Node": obj({"next": {"$ref": "#/definitions/Node"}, "v": INT}, ["v"]), "Other": obj({"n": {"$ref": "#/definitions/Node"}, "w": STR})}
+OPS.update({"R7": {"refs": D7}, "R7n": {"refs": {"Node": D7["Node"]}}, "R7o": {"refs": {"Other": D7["Other"]}},
+            "T9": {"type": obj({"n": {"$ref": "#/definitions/Node"}, "w": STR}), "hint": "Other"}})
 SUB6 = ["R1", "R3", "T1", "T3", "T4", "T5"]
-SUB_ORDER = ["R6", "R6r", "R6z", "R6a", "R2", "T1"]
+SUB_ORDER = ["R6", "R6r", "R6z", "R6a", "R2", "T1", "R7", "R7n", "R7o", "T9"]
 SUB_ROOTS = ["ROOT3", "T6", "ROOT2", "T1", "R2", "T7", "T8"]
-DEFINES = {"R14": set(D1) | set(D4), "R6": set(D6), "R6r": set(D6), "R6z": {"Zest"}, "R6a": {"Apple"}, "R5": set(D5), "R1": set(D1), "R2": set(D2), "R3": set(D3), "R4": set(D4), "R12": set(D12), "ROOT1": set(D1) | {"Root1"}, "ROOT2": set(D2) | {"Root2"},
+DEFINES = {"R7": {"Node", "Other"}, "R7n": {"Node"}, "R7o": {"Other"}, "R14": set(D1) | set(D4), "R6": set(D6), "R6r": set(D6), "R6z": {"Zest"}, "R6a": {"Apple"}, "R5": set(D5), "R1": set(D1), "R2": set(D2), "R3": set(D3), "R4": set(D4), "R12": set(D12), "ROOT1": set(D1) | {"Root1"}, "ROOT2": set(D2) | {"Root2"},
            "ROOT3": {"Root3"}}
 ROOT_TITLE = {"ROOT1": "Root1", "ROOT2": "Root2", "ROOT3": "Root3"}
 NEEDS_D1 = {"T4", "R5"}
@@ -70,7 +75,7 @@ INDEPENDENT = {frozenset(p) for p in [("R1", "R2"), ("R1", "R3"), ("R2", "R3"), 
                                       ("R5", "R2"), ("R5", "R3"), ("R5", "ROOT2"), ("R5", "ROOT3"), ("R5", "T5"), ("R5", "T1"),
                                       ("ROOT1", "ROOT2"), ("ROOT1", "R2"), ("ROOT2", "R1"), ("ROOT2", "R3"), ("ROOT1", "ROOT3"), ("ROOT2", "ROOT3"),
                                       ("R1", "ROOT3"), ("R2", "ROOT3"), ("R3", "ROOT3"), ("R12", "ROOT3"), ("ROOT3", "T5"), ("ROOT3", "T1")]}
-TYPE_OPS = {"T1", "T2", "T3", "T4", "T5", "T6", "T7", "T8"}
+TYPE_OPS = {"T1", "T2", "T3", "T4", "T5", "T6", "T7", "T8", "T9"}
 
 
 def enabled(hist, op):
@@ -80,6 +85,8 @@ def enabled(hist, op):
         return False
     if op == "R6a" and not (set(hist) & {"R6z"}):
         return False   # Apple refers to Zest
+    if op in ("R7o", "T9") and not (set(hist) & {"R7n", "R7"}):
+        return False   # Other refers to Node
     return True
 
 
@@ -268,7 +275,7 @@ def execute(cases_, tier, seed):
                     res.violations.append(Violation(k, "I4-order-dependent", "%s vs %s: different definitions %s" % (list(h), list(sw), [d[:3] for d in diff[:3]]),
                                                     {"history": list(h), "key": k, "other": list(sw)}, expected="same set of definitions", observed=[list(d) for d in diff[:10]],
                                                     features={"len": len(h)}))
-        for whole, parts in (("R6", ("R6z", "R6a")), ("R6", ("R6r",)), ("R6r", ("R6z", "R6a"))):
+        for whole, parts in (("R6", ("R6z", "R6a")), ("R6", ("R6r",)), ("R6r", ("R6z", "R6a")), ("R7", ("R7n", "R7o")), ("R7", ("R7n", "T9"))):
             if len(h) >= 1 and h[-1] == whole:
                 sp = h[:-1] + parts
                 if sp in final_items:
@@ -293,14 +300,14 @@ def execute(cases_, tier, seed):
     res.evaluations = len(cases_)
     res.extra.update({"histories": len(cases_), "commutation_checks": n_comm, "max_depth": max(len(c["history"]) for c in cases_)})
     res.samples = [c["history"] for c in cases_[:: max(1, len(cases_) // 5)]][:5]
-    res.bound = "tier=%s: all histories over the 22-op alphabet to depth %s" % (tier, "3 (and depth 4 over a 6-op, depth 3 over the 6-op ordering sub-alphabet)" if tier == "quick" else "4 (and depth 5 over an 8-op and the 6-op ordering sub-alphabet)")
+    res.bound = "tier=%s: all histories over the 22-op alphabet (26 ops in the ordering sub-alphabet's space) to depth %s" % (tier, "3 (and depth 4 over a 6-op, depth 3 over the 6-op ordering sub-alphabet)" if tier == "quick" else "4 (and depth 5 over an 8-op and the 6-op ordering sub-alphabet)")
     res.assumptions = ["histories are not extended past an op that returns Err (documented: the space is unspecified after an error)"]
     if not res.violations and (len(cases_) > 50 and (len(canon_states) < 30 or n_comm < 10)):   # a subject that breaks everything is reported through its violations, not as vacuity
         raise MachineryError("vacuity guard: states=%d commutation checks=%d" % (len(canon_states), n_comm))
     return res
 
 
-INLINE = {"R14": {"WInner"}, "T8": {"Level"}, "T6": {"Root3"}, "T3": {"Labels"}, "R1": {"WInner"}, "R12": {"WInner"}, "ROOT1": {"WInner"}}
+INLINE = {"R14": {"WInner"}, "T9": {"Other"}, "T8": {"Level"}, "T6": {"Root3"}, "T3": {"Labels"}, "R1": {"WInner"}, "R12": {"WInner"}, "ROOT1": {"WInner"}}
 
 
 def _late_defined(h):
